@@ -186,6 +186,49 @@ func init() {
 		x.Outcome = "long"
 		fs.flush(x, n)
 	}
+	// every prefix length 0..300 x filler patterns (positions relative to any internal scan window)
+	fillers := []string{"x", "\x00", "I", "M", "IM", "MI\x00*", "IM*\x00", "abcdefg", "I*\x00M\x00*"}
+	hLen := func(x *mc.Exec) {
+		L := x.All("prefix-length", 301)
+		fi := x.All("filler", len(fillers))
+		hdr := x.All("header", 2)
+		pat := fillers[fi]
+		pre := bytes.Repeat([]byte(pat), L/len(pat)+1)[:L]
+		fs := newFailSet("tiff.ScanTiffHeader.prefix-length")
+		n := 0
+		for off := 0; off < 2; off++ {
+			for tail := 0; tail < c12Tails; tail++ {
+				n++
+				c12Check(append(append([]byte{}, pre...), c12Tail(hdr, off, tail)...), fs)
+			}
+		}
+		x.Bulk = int64(n) - 1
+		x.Outcome = fmt.Sprint(L % 32)
+		x.InputID = hashBytes([]byte{byte(L), byte(L >> 8), byte(fi), byte(hdr), 0x12})
+		fs.flush(x, n)
+	}
+	// the header of another format (whole or cut) in front of the TIFF block: the sniffers that run on the
+	// first window must not disturb the search
+	hnames, hheads := canonicalHeaders()
+	hForeign := func(x *mc.Exec) {
+		hi := x.All("foreign-header", len(hheads))
+		cut := []int{4, 8, 12, 16, 20, 24}[x.All("cut", 6)]
+		gap := []int{0, 1, 4, 11}[x.All("gap", 4)]
+		hdr := x.All("header", 2)
+		pre := append(append([]byte{}, hheads[hi][:cut]...), bytes.Repeat([]byte{'x'}, gap)...)
+		fs := newFailSet("tiff.ScanTiffHeader.foreign-header-prefix")
+		n := 0
+		for off := 0; off < 2; off++ {
+			for tail := 0; tail < c12Tails; tail++ {
+				n++
+				c12Check(append(append([]byte{}, pre...), c12Tail(hdr, off, tail)...), fs)
+			}
+		}
+		x.Bulk = int64(n) - 1
+		x.Outcome = hnames[hi]
+		x.InputID = hashBytes([]byte{byte(hi), byte(cut), byte(gap), byte(hdr), 0x13})
+		fs.flush(x, n)
+	}
 	register(&mc.Check{
 		Property: "C12",
 		Spaces: func(tier string) []mc.Space {
@@ -196,6 +239,10 @@ func init() {
 			return []mc.Space{
 				{Name: "short-prefixes", H: hShort(maxLen), NoLevels: true,
 					Rule: fmt.Sprintf("every prefix over {I,M,*,0x00,x} of length <= %d x header {II,MM} x first-IFD offset {8,0x01020304} x tail {28 bytes, 27 bytes, 4 KiB, later signatures, no header}; one execution per (length, first 3 symbols, header), the rest enumerated natively", maxLen)},
+				{Name: "all-prefix-lengths", H: hLen, NoLevels: true,
+					Rule: "every prefix length 0..300 x 9 filler patterns (plain bytes, single letters, mixed marks MI\\0* / IM*\\0, partial signatures) x header x first-IFD offset x tails"},
+				{Name: "foreign-header-prefixes", H: hForeign, NoLevels: true,
+					Rule: "the canonical header of every other supported format, cut at 4..24 bytes, plus a gap of 0/1/4/11 bytes, in front of the TIFF block (the sniffers that look at the first window must not disturb the search)"},
 				{Name: "window-boundaries", H: hLong, NoLevels: true,
 					Rule: "prefix lengths 4060..4139 and 8156..8235 (bufio window boundaries minus the 32-byte peek) x 10 repeating partial-signature patterns x header x tails"},
 			}
